@@ -116,8 +116,17 @@ func harnessNames(pkg *ssa.Package) []string {
 	return out
 }
 
+// scratchRoot is where out/ and evidence/ go: /verif unless VERIF_SCRATCH redirects them
+// (used when trying seeded mutations in scratch worktrees, so that /verif/evidence is untouched).
+func scratchRoot() string {
+	if v := os.Getenv("VERIF_SCRATCH"); v != "" {
+		return v
+	}
+	return verifRoot
+}
+
 func outDir() string {
-	d := filepath.Join(verifRoot, "out")
+	d := filepath.Join(scratchRoot(), "out")
 	os.MkdirAll(filepath.Join(d, "replay"), 0o755)
 	return d
 }
@@ -273,9 +282,9 @@ type harnessReport struct {
 }
 
 func writeEvidence(ev *Evidence) {
-	os.MkdirAll(filepath.Join(verifRoot, "evidence"), 0o755)
+	os.MkdirAll(filepath.Join(scratchRoot(), "evidence"), 0o755)
 	b, _ := json.MarshalIndent(ev, "", " ")
-	os.WriteFile(filepath.Join(verifRoot, "evidence", ev.PropertyID+".json"), b, 0o644)
+	os.WriteFile(filepath.Join(scratchRoot(), "evidence", ev.PropertyID+".json"), b, 0o644)
 }
 
 func loadChecks() (map[string]*PropCfg, error) {
@@ -575,7 +584,7 @@ func cmdCheck(args []string) {
 			continue
 		}
 		nViol++
-		keep := filepath.Join(verifRoot, "out", "violations")
+		keep := filepath.Join(scratchRoot(), "out", "violations")
 		os.MkdirAll(keep, 0o755)
 		dst := filepath.Join(keep, filepath.Base(c.file))
 		b, _ := os.ReadFile(c.file)
